@@ -51,7 +51,8 @@ def flow_of(f, is_resume: bool):
         elif re.fullmatch(r"with open\(autosave_file, 'rb'\) as (\w+):\n\s+impl(: MPSBackendImpl)? = pickle\.load\(\1\)", t):
             out.append("SLoad")
         elif (m := re.fullmatch(r"impl\.(\w+) = (.*)", t)) and "\n" not in t:
-            if not re.fullmatch(r"autosave_file|time\.time\(\)", m.group(2)):
+            allowed = {"autosave_file": "autosave_file", "last_save_time": r"time\.time\(\)"}
+            if m.group(1) not in allowed or not re.fullmatch(allowed[m.group(1)], m.group(2)):
                 raise Unsupported(f"resume rebinds impl.{m.group(1)} to `{m.group(2)}`")
             out.append(f'SRebind "{m.group(1)}"')
         elif re.fullmatch(r"logger = init_logging\(impl\.config\.log_level, impl\.config\.log_file\)", t) or \
